@@ -3,7 +3,14 @@
    same machinery; what is specific to metrics is presence (sum/min/max, int vs double), proved here for the wrappers.
    All metric types, zero counts, all-zero bucket lists, zero offsets, present-but-zero sum/min/max, empty lists,
    exemplars are covered by the equivalence predicate evaluated in Coq on real input/output. *)
-From Verif Require Import Base.ListX Obf.Obfuscate Otlp.Equiv Otap.Tables Otap.Attrs Otap.Wrappers.
+From Verif Require Import Base.ListX Obf.Obfuscate Otlp.Equiv Otap.Tables Otap.Attrs Otap.Wrappers Otap.WrapperGuardsBaseline.
+From VerifGen Require Import WrapperGuards.
+
+(* the premise of the two theorems below, for the code as it is now: every wrapper method of the current source requests an
+   absent column under exactly the condition the model assumes (generated from builder/*.go on every run) *)
+Theorem C03_wrapper_guards_as_modelled : forallb guard_known wrapper_guards = true.
+Proof. vm_compute. reflexivity. Qed.
+Print Assumptions C03_wrapper_guards_as_modelled.
 
 (* an optional value is decoded present iff it was present, with the same value — zero included *)
 Theorem C03_presence_preserved : forall (A : Type) (o : option A), dec_opt A (enc_opt A o) = o.
